@@ -17,8 +17,9 @@ pub enum Tok {
     Struct(&'static str),
     Field(&'static str),
     End,
-    U64(u64),
-    U32(u32),
+    /// a number; the value lives in `Toks::nums` (the token array itself stays free of symbolic data)
+    U64(u8),
+    U32(u8),
     None,
     Some,
     UnitVariant(&'static str),
@@ -27,42 +28,53 @@ pub enum Tok {
 
 #[derive(Debug)]
 pub struct Error;
+/// Every error is a verdict here (the documents are produced by the serializer under test or are valid by construction), so under
+/// Kani an error ends the path with a failed check instead of flowing on as a value: error paths that re-join the main path would
+/// make the read position symbolic for the solver.
+#[inline(always)]
+fn fail() -> Error {
+    #[cfg(kani)]
+    panic!("serialisation / deserialisation reported an error");
+    #[allow(unreachable_code)]
+    Error
+}
 impl fmt::Display for Error { fn fmt(&self, f: &mut fmt::Formatter<'_>) -> fmt::Result { f.write_str("token format error") } }
 impl std::error::Error for Error {}
-impl ser::Error for Error { fn custom<T: fmt::Display>(_m: T) -> Self { Error } }
-impl de::Error for Error { fn custom<T: fmt::Display>(_m: T) -> Self { Error } }
+impl ser::Error for Error { fn custom<T: fmt::Display>(_m: T) -> Self { fail() } }
+impl de::Error for Error { fn custom<T: fmt::Display>(_m: T) -> Self { fail() } }
 
-pub struct Toks { pub t: [Tok; CAP], pub n: usize }
+pub struct Toks { pub t: [Tok; CAP], pub n: usize, pub nums: [u64; 8], pub nn: usize }
 impl Toks {
-    pub fn new() -> Self { Toks { t: [Tok::Pad; CAP], n: 0 } }
-    fn push(&mut self, t: Tok) -> Result<(), Error> { if self.n >= CAP { return Err(Error); } self.t[self.n] = t; self.n += 1; Ok(()) }
+    pub fn new() -> Self { Toks { t: [Tok::Pad; CAP], n: 0, nums: [0; 8], nn: 0 } }
+    fn num(&mut self, v: u64) -> Result<u8, Error> { if self.nn >= 8 { return Err(fail()); } self.nums[self.nn] = v; self.nn += 1; Ok((self.nn - 1) as u8) }
+    fn push(&mut self, t: Tok) -> Result<(), Error> { if self.n >= CAP { return Err(fail()); } self.t[self.n] = t; self.n += 1; Ok(()) }
 }
 
 // ------------------------------------------------------------------ serializer
 pub struct Ser<'a>(pub &'a mut Toks);
 pub struct SerStruct<'a>(&'a mut Toks);
 pub struct Never;
-macro_rules! unsupported { ($($f:ident($($t:ty),*)),* $(,)?) => { $( fn $f(self $(, _: $t)*) -> Result<Self::Ok, Error> { Err(Error) } )* } }
+macro_rules! unsupported { ($($f:ident($($t:ty),*)),* $(,)?) => { $( fn $f(self $(, _: $t)*) -> Result<Self::Ok, Error> { Err(fail()) } )* } }
 impl<'a> ser::Serializer for Ser<'a> {
     type Ok = (); type Error = Error;
     type SerializeSeq = Never; type SerializeTuple = Never; type SerializeTupleStruct = Never; type SerializeTupleVariant = Never;
     type SerializeMap = Never; type SerializeStruct = SerStruct<'a>; type SerializeStructVariant = Never;
-    fn serialize_u64(self, v: u64) -> Result<(), Error> { self.0.push(Tok::U64(v)) }
-    fn serialize_u32(self, v: u32) -> Result<(), Error> { self.0.push(Tok::U32(v)) }
+    fn serialize_u64(self, v: u64) -> Result<(), Error> { let i = self.0.num(v)?; self.0.push(Tok::U64(i)) }
+    fn serialize_u32(self, v: u32) -> Result<(), Error> { let i = self.0.num(v as u64)?; self.0.push(Tok::U32(i)) }
     fn serialize_none(self) -> Result<(), Error> { self.0.push(Tok::None) }
     fn serialize_some<T: ?Sized + Serialize>(self, v: &T) -> Result<(), Error> { self.0.push(Tok::Some)?; v.serialize(Ser(self.0)) }
     fn serialize_unit_variant(self, _n: &'static str, _i: u32, variant: &'static str) -> Result<(), Error> { self.0.push(Tok::UnitVariant(variant)) }
     fn serialize_struct(self, name: &'static str, _len: usize) -> Result<SerStruct<'a>, Error> { self.0.push(Tok::Struct(name))?; Ok(SerStruct(self.0)) }
     unsupported!(serialize_bool(bool), serialize_i8(i8), serialize_i16(i16), serialize_i32(i32), serialize_i64(i64), serialize_u8(u8), serialize_u16(u16),
                  serialize_f32(f32), serialize_f64(f64), serialize_char(char), serialize_str(&str), serialize_bytes(&[u8]), serialize_unit(), serialize_unit_struct(&'static str));
-    fn serialize_newtype_struct<T: ?Sized + Serialize>(self, _n: &'static str, _v: &T) -> Result<(), Error> { Err(Error) }
-    fn serialize_newtype_variant<T: ?Sized + Serialize>(self, _n: &'static str, _i: u32, _v: &'static str, _x: &T) -> Result<(), Error> { Err(Error) }
-    fn serialize_seq(self, _l: Option<usize>) -> Result<Never, Error> { Err(Error) }
-    fn serialize_tuple(self, _l: usize) -> Result<Never, Error> { Err(Error) }
-    fn serialize_tuple_struct(self, _n: &'static str, _l: usize) -> Result<Never, Error> { Err(Error) }
-    fn serialize_tuple_variant(self, _n: &'static str, _i: u32, _v: &'static str, _l: usize) -> Result<Never, Error> { Err(Error) }
-    fn serialize_map(self, _l: Option<usize>) -> Result<Never, Error> { Err(Error) }
-    fn serialize_struct_variant(self, _n: &'static str, _i: u32, _v: &'static str, _l: usize) -> Result<Never, Error> { Err(Error) }
+    fn serialize_newtype_struct<T: ?Sized + Serialize>(self, _n: &'static str, _v: &T) -> Result<(), Error> { Err(fail()) }
+    fn serialize_newtype_variant<T: ?Sized + Serialize>(self, _n: &'static str, _i: u32, _v: &'static str, _x: &T) -> Result<(), Error> { Err(fail()) }
+    fn serialize_seq(self, _l: Option<usize>) -> Result<Never, Error> { Err(fail()) }
+    fn serialize_tuple(self, _l: usize) -> Result<Never, Error> { Err(fail()) }
+    fn serialize_tuple_struct(self, _n: &'static str, _l: usize) -> Result<Never, Error> { Err(fail()) }
+    fn serialize_tuple_variant(self, _n: &'static str, _i: u32, _v: &'static str, _l: usize) -> Result<Never, Error> { Err(fail()) }
+    fn serialize_map(self, _l: Option<usize>) -> Result<Never, Error> { Err(fail()) }
+    fn serialize_struct_variant(self, _n: &'static str, _i: u32, _v: &'static str, _l: usize) -> Result<Never, Error> { Err(fail()) }
 }
 impl<'a> SerializeStruct for SerStruct<'a> {
     type Ok = (); type Error = Error;
@@ -70,15 +82,15 @@ impl<'a> SerializeStruct for SerStruct<'a> {
     fn end(self) -> Result<(), Error> { self.0.push(Tok::End) }
 }
 macro_rules! never_impl { ($($tr:ident { $($m:ident)* }),*) => { $( impl ser::$tr for Never { type Ok = (); type Error = Error;
-    $( fn $m<T: ?Sized + Serialize>(&mut self, _v: &T) -> Result<(), Error> { Err(Error) } )* fn end(self) -> Result<(), Error> { Err(Error) } } )* } }
+    $( fn $m<T: ?Sized + Serialize>(&mut self, _v: &T) -> Result<(), Error> { Err(fail()) } )* fn end(self) -> Result<(), Error> { Err(fail()) } } )* } }
 never_impl!(SerializeSeq { serialize_element }, SerializeTuple { serialize_element }, SerializeTupleStruct { serialize_field }, SerializeTupleVariant { serialize_field });
 impl ser::SerializeMap for Never { type Ok = (); type Error = Error;
-    fn serialize_key<T: ?Sized + Serialize>(&mut self, _k: &T) -> Result<(), Error> { Err(Error) }
-    fn serialize_value<T: ?Sized + Serialize>(&mut self, _v: &T) -> Result<(), Error> { Err(Error) }
-    fn end(self) -> Result<(), Error> { Err(Error) } }
+    fn serialize_key<T: ?Sized + Serialize>(&mut self, _k: &T) -> Result<(), Error> { Err(fail()) }
+    fn serialize_value<T: ?Sized + Serialize>(&mut self, _v: &T) -> Result<(), Error> { Err(fail()) }
+    fn end(self) -> Result<(), Error> { Err(fail()) } }
 impl ser::SerializeStructVariant for Never { type Ok = (); type Error = Error;
-    fn serialize_field<T: ?Sized + Serialize>(&mut self, _k: &'static str, _v: &T) -> Result<(), Error> { Err(Error) }
-    fn end(self) -> Result<(), Error> { Err(Error) } }
+    fn serialize_field<T: ?Sized + Serialize>(&mut self, _k: &'static str, _v: &T) -> Result<(), Error> { Err(fail()) }
+    fn end(self) -> Result<(), Error> { Err(fail()) } }
 
 // ------------------------------------------------------------------ deserializer
 pub struct De<'a> { pub t: &'a Toks, pub pos: usize }
@@ -104,17 +116,17 @@ impl<'de, 'a, 'b> de::Deserializer<'de> for &'b mut De<'a> {
     type Error = Error;
     fn deserialize_any<V: Visitor<'de>>(self, v: V) -> Result<V::Value, Error> {
         match self.next() {
-            Tok::U64(x) => v.visit_u64(x),
-            Tok::U32(x) => v.visit_u32(x),
+            Tok::U64(i) => v.visit_u64(self.t.nums[i as usize]),
+            Tok::U32(i) => v.visit_u32(self.t.nums[i as usize] as u32),
             Tok::None => v.visit_none(),
             Tok::Some => v.visit_some(self),
             Tok::Struct(_) => v.visit_map(Fields(self)),
             Tok::UnitVariant(name) => v.visit_enum(Variant(name)),
-            _ => Err(Error),
+            _ => Err(fail()),
         }
     }
     fn deserialize_option<V: Visitor<'de>>(self, v: V) -> Result<V::Value, Error> {
-        match self.peek() { Tok::None => { self.pos += 1; v.visit_none() } Tok::Some => { self.pos += 1; v.visit_some(self) } _ => Err(Error) }
+        match self.peek() { Tok::None => { self.pos += 1; v.visit_none() } Tok::Some => { self.pos += 1; v.visit_some(self) } _ => Err(fail()) }
     }
     fn deserialize_ignored_any<V: Visitor<'de>>(self, v: V) -> Result<V::Value, Error> {
         // skip one value
@@ -122,9 +134,9 @@ impl<'de, 'a, 'b> de::Deserializer<'de> for &'b mut De<'a> {
         loop {
             match self.next() {
                 Tok::Struct(_) => depth += 1,
-                Tok::End => { if depth == 0 { return Err(Error); } depth -= 1; if depth == 0 { break; } }
+                Tok::End => { if depth == 0 { return Err(fail()); } depth -= 1; if depth == 0 { break; } }
                 Tok::Some | Tok::Field(_) => continue,
-                Tok::Pad => return Err(Error),
+                Tok::Pad => return Err(fail()),
                 _ => { if depth == 0 { break; } }
             }
         }
@@ -136,14 +148,31 @@ impl<'de, 'a, 'b> de::Deserializer<'de> for &'b mut De<'a> {
     fn deserialize_newtype_struct<V: Visitor<'de>>(self, _n: &'static str, v: V) -> Result<V::Value, Error> { self.deserialize_any(v) }
     fn deserialize_tuple<V: Visitor<'de>>(self, _l: usize, v: V) -> Result<V::Value, Error> { self.deserialize_any(v) }
     fn deserialize_tuple_struct<V: Visitor<'de>>(self, _n: &'static str, _l: usize, v: V) -> Result<V::Value, Error> { self.deserialize_any(v) }
-    fn deserialize_struct<V: Visitor<'de>>(self, _n: &'static str, _f: &'static [&'static str], v: V) -> Result<V::Value, Error> { self.deserialize_any(v) }
+    fn deserialize_struct<V: Visitor<'de>>(self, n: &'static str, _f: &'static [&'static str], v: V) -> Result<V::Value, Error> {
+        // serde's own `Duration` (not deadpool code) is read positionally: its visitor accepts a sequence (secs, nanos) as well as a map,
+        // and the sequence form has no loop over field names.  deadpool's derived structs are always read as maps (by field name).
+        if n == "Duration" {
+            return match self.next() {
+                Tok::Struct(_) => { let r = v.visit_seq(Elems(&mut *self))?; if self.next() == Tok::End { Ok(r) } else { Err(fail()) } }
+                _ => Err(fail()),
+            };
+        }
+        self.deserialize_any(v)
+    }
     fn deserialize_enum<V: Visitor<'de>>(self, _n: &'static str, _vs: &'static [&'static str], v: V) -> Result<V::Value, Error> { self.deserialize_any(v) }
+}
+struct Elems<'b, 'a>(&'b mut De<'a>);
+impl<'de, 'a, 'b> de::SeqAccess<'de> for Elems<'b, 'a> {
+    type Error = Error;
+    fn next_element_seed<S: DeserializeSeed<'de>>(&mut self, seed: S) -> Result<Option<S::Value>, Error> {
+        match self.0.next() { Tok::End => Ok(None), Tok::Field(_) => seed.deserialize(&mut *self.0).map(Some), _ => Err(fail()) }
+    }
 }
 struct Fields<'b, 'a>(&'b mut De<'a>);
 impl<'de, 'a, 'b> MapAccess<'de> for Fields<'b, 'a> {
     type Error = Error;
     fn next_key_seed<K: DeserializeSeed<'de>>(&mut self, seed: K) -> Result<Option<K::Value>, Error> {
-        match self.0.next() { Tok::End => Ok(None), Tok::Field(name) => seed.deserialize(Name(name)).map(Some), _ => Err(Error) }
+        match self.0.next() { Tok::End => Ok(None), Tok::Field(name) => seed.deserialize(Name(name)).map(Some), _ => Err(fail()) }
     }
     fn next_value_seed<S: DeserializeSeed<'de>>(&mut self, seed: S) -> Result<S::Value, Error> { seed.deserialize(&mut *self.0) }
 }
@@ -156,28 +185,29 @@ struct Unit;
 impl<'de> VariantAccess<'de> for Unit {
     type Error = Error;
     fn unit_variant(self) -> Result<(), Error> { Ok(()) }
-    fn newtype_variant_seed<S: DeserializeSeed<'de>>(self, _s: S) -> Result<S::Value, Error> { Err(Error) }
-    fn tuple_variant<V: Visitor<'de>>(self, _l: usize, _v: V) -> Result<V::Value, Error> { Err(Error) }
-    fn struct_variant<V: Visitor<'de>>(self, _f: &'static [&'static str], _v: V) -> Result<V::Value, Error> { Err(Error) }
+    fn newtype_variant_seed<S: DeserializeSeed<'de>>(self, _s: S) -> Result<S::Value, Error> { Err(fail()) }
+    fn tuple_variant<V: Visitor<'de>>(self, _l: usize, _v: V) -> Result<V::Value, Error> { Err(fail()) }
+    fn struct_variant<V: Visitor<'de>>(self, _f: &'static [&'static str], _v: V) -> Result<V::Value, Error> { Err(fail()) }
 }
 
 // ------------------------------------------------------------------ the properties
 /// source of inputs: `kani::any()` under Kani, the bytes of a counterexample natively
-pub trait Src { fn u64(&mut self) -> u64; fn u32(&mut self) -> u32; fn bool(&mut self) -> bool; fn assume(&mut self, c: bool) -> bool; }
+pub trait Src { fn u64(&mut self) -> u64; }
 
-/// the three timeouts are present / absent as the bits of `mask` say (the *shape* of the document is concrete, so that token
-/// positions and field names stay concrete for the solver); every number in it is arbitrary
-pub fn any_duration<S: Src>(s: &mut S, present: bool) -> Option<Option<Duration>> {
-    if !present { return Some(None); }
-    let secs = s.u64(); let nanos = s.u32();
-    if !s.assume(nanos < 1_000_000_000) { return None; }
-    Some(Some(Duration::new(secs, nanos)))
+/// The *shape* of the document is concrete: which timeouts are present (bits of `mask`), the queue mode, and the sub-second part
+/// of every duration (`nanos`, one entry per timeout).  `Option<Duration>` keeps its discriminant in the niche of the nanosecond
+/// field, so a symbolic nanosecond value would make the very first `match` on the option a symbolic branch and, with it, every
+/// token position.  Seconds (all of u64) and max_size (all of usize) are arbitrary.
+pub fn any_duration<S: Src>(s: &mut S, present: bool, nanos: u32) -> Option<Duration> {
+    if !present { return None; }
+    let secs = s.u64();
+    Some(Duration::new(secs, nanos % 1_000_000_000))
 }
-pub fn any_config<S: Src>(s: &mut S, mask: u8, lifo: bool) -> Option<PoolConfig> {
+pub fn any_config<S: Src>(s: &mut S, mask: u8, lifo: bool, nanos: [u32; 3]) -> PoolConfig {
     let max_size = s.u64() as usize;
-    let wait = any_duration(s, mask & 1 != 0)?; let create = any_duration(s, mask & 2 != 0)?; let recycle = any_duration(s, mask & 4 != 0)?;
+    let wait = any_duration(s, mask & 1 != 0, nanos[0]); let create = any_duration(s, mask & 2 != 0, nanos[1]); let recycle = any_duration(s, mask & 4 != 0, nanos[2]);
     let queue_mode = if lifo { QueueMode::Lifo } else { QueueMode::Fifo };
-    Some(PoolConfig { max_size, timeouts: Timeouts { wait, create, recycle }, queue_mode })
+    PoolConfig { max_size, timeouts: Timeouts { wait, create, recycle }, queue_mode }
 }
 fn same_mode(a: QueueMode, b: QueueMode) -> bool { matches!((a, b), (QueueMode::Fifo, QueueMode::Fifo) | (QueueMode::Lifo, QueueMode::Lifo)) }
 pub fn same(a: &PoolConfig, b: &PoolConfig) -> Result<(), &'static str> {
@@ -199,8 +229,9 @@ pub fn roundtrip(c: &PoolConfig) -> Result<PoolConfig, &'static str> {
 /// a document that names only `max_size` (and, depending on `with`, some of the optional sections): omitted sections take the documented defaults
 pub fn omitted(max_size: u64, with_timeouts: bool, with_mode: bool, inner: u8) -> Result<PoolConfig, &'static str> {
     let mut t = Toks::new();
+    t.nums[0] = max_size; t.nn = 1;
     let mut p = |x: Tok| { let _ = t.push(x); };
-    p(Tok::Struct("PoolConfig")); p(Tok::Field("max_size")); p(Tok::U64(max_size));
+    p(Tok::Struct("PoolConfig")); p(Tok::Field("max_size")); p(Tok::U64(0));
     if with_timeouts {
         // a timeouts section in which only some of the three entries are present (bit mask `inner`), each of them None
         p(Tok::Field("timeouts")); p(Tok::Struct("Timeouts"));
@@ -221,22 +252,23 @@ mod proofs {
     struct K;
     impl Src for K {
         fn u64(&mut self) -> u64 { kani::any() }
-        fn u32(&mut self) -> u32 { kani::any() }
-        fn bool(&mut self) -> bool { kani::any() }
-        fn assume(&mut self, c: bool) -> bool { kani::assume(c); true }
     }
-    fn shape(mask: u8, lifo: bool) {
-        let c = any_config(&mut K, mask, lifo).unwrap();
+    fn shape(mask: u8, lifo: bool, nanos: [u32; 3]) {
+        let c = any_config(&mut K, mask, lifo, nanos);
         let r = roundtrip(&c);
+        kani::cover!(r.is_ok(), "vacuity witness: the round trip completes");
         assert!(r.is_ok(), "PoolConfig does not survive serialisation + deserialisation");
         assert!(same(&c, r.as_ref().unwrap()).is_ok(), "PoolConfig changed in a serialise / deserialise round trip");
-        kani::cover!(r.is_ok(), "vacuity witness: the round trip completes");
     }
-    macro_rules! shape_proofs { ($($name:ident = ($m:expr, $l:expr)),* $(,)?) => { $( #[kani::proof] #[kani::unwind(13)] fn $name() { shape($m, $l); } )* } }
-    shape_proofs!(roundtrip_shape_0_fifo = (0, false), roundtrip_shape_1_fifo = (1, false), roundtrip_shape_2_fifo = (2, false), roundtrip_shape_3_fifo = (3, false),
-                  roundtrip_shape_4_fifo = (4, false), roundtrip_shape_5_fifo = (5, false), roundtrip_shape_6_fifo = (6, false), roundtrip_shape_7_fifo = (7, false),
-                  roundtrip_shape_0_lifo = (0, true), roundtrip_shape_1_lifo = (1, true), roundtrip_shape_2_lifo = (2, true), roundtrip_shape_3_lifo = (3, true),
-                  roundtrip_shape_4_lifo = (4, true), roundtrip_shape_5_lifo = (5, true), roundtrip_shape_6_lifo = (6, true), roundtrip_shape_7_lifo = (7, true));
+    const N1: [u32; 3] = [999_999_999, 0, 1];
+    const N2: [u32; 3] = [1_000_000, 999_999, 500_000_000];
+    macro_rules! shape_proofs { ($($name:ident = ($m:expr, $l:expr, $n:expr)),* $(,)?) => { $( #[kani::proof] #[kani::unwind(13)] fn $name() { shape($m, $l, $n); } )* } }
+    shape_proofs!(roundtrip_shape_0_fifo = (0, false, N1), roundtrip_shape_1_fifo = (1, false, N1), roundtrip_shape_2_fifo = (2, false, N1), roundtrip_shape_3_fifo = (3, false, N1),
+                  roundtrip_shape_4_fifo = (4, false, N1), roundtrip_shape_5_fifo = (5, false, N1), roundtrip_shape_6_fifo = (6, false, N1), roundtrip_shape_7_fifo = (7, false, N1),
+                  roundtrip_shape_0_lifo = (0, true, N1), roundtrip_shape_1_lifo = (1, true, N1), roundtrip_shape_2_lifo = (2, true, N1), roundtrip_shape_3_lifo = (3, true, N1),
+                  roundtrip_shape_4_lifo = (4, true, N1), roundtrip_shape_5_lifo = (5, true, N1), roundtrip_shape_6_lifo = (6, true, N1), roundtrip_shape_7_lifo = (7, true, N1),
+                  thorough_shape_1_fifo = (1, false, N2), thorough_shape_2_lifo = (2, true, N2), thorough_shape_3_fifo = (3, false, N2), thorough_shape_4_lifo = (4, true, N2),
+                  thorough_shape_5_fifo = (5, false, N2), thorough_shape_6_lifo = (6, true, N2), thorough_shape_7_fifo = (7, false, N2), thorough_shape_7_lifo = (7, true, N2));
 
     fn omit(wt: bool, wm: bool, inner: u8) {
         let ms: u64 = kani::any();
